@@ -108,6 +108,30 @@ pub fn cmd_pwstr(args: &[String]) {
                 Err(p) => fail!("PwHash::hash_with_salt panicked", p),
             }
         }
+        // the same object over heap and locked containers (nightly): identical string, same verdicts
+        #[cfg(feature = "nightly")]
+        if alg == "argon2id" && vi % 3 == 0 {
+            use dryoc::protected::{HeapBytes, Locked, NewLockedFromSlice};
+            rep.evaluations += 2;
+            let cfg = Config::interactive().with_opslimit(t).with_memlimit(m * 1024).with_salt_length(sl).with_hash_length(hl);
+            let lpw = HeapBytes::from_slice_into_locked(&pw).unwrap();
+            let lsalt = HeapBytes::from_slice_into_locked(&salt).unwrap();
+            match catch(|| PwHash::<Locked<HeapBytes>, Locked<HeapBytes>>::hash_with_salt(&lpw, lsalt, cfg.clone())) {
+                Ok(Ok(p)) => {
+                    let s = p.to_string();
+                    if s != want { fail!("LockedPwHash::to_string differs from the prescribed encoding", {"got": s, "want": want}); }
+                    if p.verify(&lpw).is_err() { fail!("LockedPwHash rejects the right password", {"string": want}); }
+                    if p.verify(&wrong).is_ok() { fail!("LockedPwHash accepts a wrong password", {"string": want}); }
+                }
+                Ok(Err(e)) => fail!("LockedPwHash::hash_with_salt failed", format!("{:?}", e)),
+                Err(p) => fail!("LockedPwHash::hash_with_salt panicked", p),
+            }
+            match catch(|| PwHash::<HeapBytes, HeapBytes>::hash_with_salt(&pw, HeapBytes::from(&salt[..]), cfg)) {
+                Ok(Ok(p)) => { let s = p.to_string(); if s != want { fail!("PwHash<HeapBytes,HeapBytes>::to_string differs from the prescribed encoding", {"got": s, "want": want}); } }
+                Ok(Err(e)) => fail!("PwHash<HeapBytes,HeapBytes>::hash_with_salt failed", format!("{:?}", e)),
+                Err(p) => fail!("PwHash<HeapBytes,HeapBytes>::hash_with_salt panicked", p),
+            }
+        }
         if vi % 97 == 0 { rep.sample(json!({"object": o, "string": want})); }
     }
     // needs-rehash truth table of the specification, on dryoc and on libsodium
